@@ -396,6 +396,8 @@ def build_inputs(base, rnd, tier):
                       "text": b["text"], "shape": "corpus", "facts": dict(facts0)})
     for b in pick:
         ext = os.path.splitext(b["header"])[1]
+        if b["callbacks"]:
+            continue      # the suite's test-only callbacks assert on the names they are given: not bindgen's code
         for k in range(per):
             op = G.OPS[(k + rnd.randrange(len(G.OPS))) % len(G.OPS)] if k >= len(G.OPS) else G.OPS[k % len(G.OPS)]
             donor = rnd.choice(bases)
